@@ -56,6 +56,9 @@ type Box struct {
 	// `spok build >out.log 2>err.log` or a CI system that captures logs in files (fsync works on
 	// them, isatty says no, writes never block); read back after the run. Reset by ResetFor.
 	FileOutputs bool
+	// FsizeLimit: when > 0, the next run may not make any file larger than this many bytes (prlimit
+	// --fsize): a write beyond it fails with EFBIG, as on a full disk or over quota. Reset after one run.
+	FsizeLimit int64
 	// Cpus: when set (e.g. "0,1"), spok is started under `taskset -c <Cpus>` — it then sees that many CPUs
 	Cpus string
 }
@@ -234,6 +237,13 @@ func (b *Box) RunWrapped(wrapper []string, cwd string, env []string, timeout tim
 			wrapper = append([]string{ts, "-c", b.Cpus}, wrapper...)
 		}
 	}
+	fsize := b.FsizeLimit
+	b.FsizeLimit = 0
+	if fsize > 0 {
+		if pl, err := exec.LookPath("prlimit"); err == nil {
+			wrapper = append([]string{pl, fmt.Sprintf("--fsize=%d", fsize), "--"}, wrapper...)
+		}
+	}
 	argv := append(append(append([]string(nil), wrapper...), b.Spok), args...)
 	cmd := exec.CommandContext(cx, argv[0], argv[1:]...)
 	cmd.Dir = cwd
@@ -249,7 +259,7 @@ func (b *Box) RunWrapped(wrapper []string, cwd string, env []string, timeout tim
 	var so, se bytes.Buffer
 	cmd.Stdout, cmd.Stderr = &so, &se
 	var outF, errF *os.File
-	if b.FileOutputs {
+	if b.FileOutputs && fsize == 0 {
 		if f1, e1 := os.CreateTemp(b.Dir, "stdout-*.log"); e1 == nil {
 			if f2, e2 := os.CreateTemp(b.Dir, "stderr-*.log"); e2 == nil {
 				outF, errF = f1, f2
